@@ -572,7 +572,7 @@ class LoopMixin:
         sp = gv.src
         e = Sym("chunk", fresh("e", T.ChunkS)) if any(tag == "chunk" for _, tag in sp.sources) and len(sp.sources) == 1 else None
         if e is None:
-            raise Unsupported("comprehension over a non-run symbolic iterable")
+            return self.materialize_general(gv, st)
         xs = sp.sources[0][0]
         probe = st.clone()
         from .values import NeedSplit
@@ -612,6 +612,79 @@ class LoopMixin:
             st.add_inst(inst)
             return st.alloc(ListV(tag=val.tag, t=out))
         raise Unsupported("comprehension element is not a modelled value")
+
+    def materialize_general(self, gv, st):
+        """[elt(x) for x in <symbolic space>] whose element evaluation neither branches on the element nor has side effects:
+        a fresh sequence `out` with |out| = N and the instantiable fact out[i] == elt(space[i]).
+        An element evaluation that may RAISE (a callee contract with exception clauses) makes the whole comprehension raise:
+        a fresh boolean ALLOK guards the facts; not ALLOK has a witness index whose element raises (the first such exception
+        class is propagated).  Element evaluations are executed on a scratch copy of the state, so the facts they assume are
+        added only under `0 <= i < N and ALLOK` (and under the element's own not-raising conditions)."""
+        sp = gv.src
+        if gv.node.generators[0].ifs:
+            raise Unsupported("filtered comprehension over this iteration space")
+        # the generic element (index pk, 0 <= pk < N): obligations raised while evaluating it (callee preconditions, safety) are
+        # emitted once, for this arbitrary index
+        probe_k = fresh("pk", T.I)
+        gen_st = st.clone()
+        gen_st.assume(probe_k >= 0, probe_k < sp.n)
+        gen_st.add_index(probe_k)
+        for off in sp.offsets:
+            gen_st.add_index(z3.simplify(off + probe_k))
+        val0, conds0, facts0 = self._elt_on_scratch(gv, sp.elem(probe_k), gen_st, oblige=True)
+        if not (isinstance(val0, Sym) and val0.tag in SEQ_OF_TAG):
+            raise Unsupported("comprehension element is not a modelled value")
+        tag = val0.tag
+        out = fresh("mapped", SEQ_OF_TAG[tag])
+        st.fact(z3.Length(out) == sp.n)
+        if tag == "chunk":
+            st.fact(Lemmas.list_basic(out))
+        # (named after the site, so that re-executing the statement after a fork meets the same constant again)
+        allok = st.nd_bool(f"allok@{gv.node.lineno}:{gv.node.col_offset}") if conds0 else z3.BoolVal(True)
+
+        def inst(i, gv=gv, sp=sp, st=st, out=out):
+            val, conds, facts = self._elt_on_scratch(gv, sp.elem(i), st)
+            body = [out[i] == val.t] + [z3.Not(c) for _, c in conds] + facts
+            return z3.Implies(z3.And(i >= 0, i < sp.n, allok), z3.And(*body))
+        st.add_inst(inst)
+        st.seq_inst[out.get_id()] = inst
+        if conds0:
+            # the comprehension raises iff some element raises
+            if not self.decide(allok, st):
+                w = st.nd_int(f"witness@{gv.node.lineno}:{gv.node.col_offset}")
+                st.add_index(w)
+                valw, condsw, factsw = self._elt_on_scratch(gv, sp.elem(w), st)
+                st.assume(w >= 0, w < sp.n, z3.Or(*[c for _, c in condsw]))
+                # which exception: the first listed clause that holds at the witness
+                for exc, c in condsw[:-1]:
+                    if self.decide(c, st):
+                        raise PyRaise(exc, note="raised while evaluating a comprehension element")
+                raise PyRaise(condsw[-1][0], note="raised while evaluating a comprehension element")     # (the disjunction holds)
+        return st.alloc(ListV(tag=tag, t=out))
+
+    def _elt_on_scratch(self, gv, elem, st, oblige=False):
+        """evaluate the comprehension's element for one element of the space on a scratch copy of `st`, collecting the raise
+        conditions of callee contracts instead of forking -> (value, [(exception, condition)], [facts the evaluation assumed])"""
+        from .values import NeedSplit
+        scratch = st.clone()
+        n_f, n_p = len(scratch.facts), len(scratch.pc)
+        self._collect_raises = []
+        saved_sup = getattr(self, "_suppress_oblige", False)
+        self._suppress_oblige = not oblige
+        from . import spec as S_
+        saved_blanks = list(S_._BLANK_TERMS)       # blank-splitting lemmas only among the terms of this one evaluation
+        del S_._BLANK_TERMS[:]
+        try:
+            _, val = self.gen_apply(gv, elem, scratch)
+        except NeedSplit:
+            raise Unsupported("comprehension element branches on the element")
+        finally:
+            conds, self._collect_raises = self._collect_raises, None
+            self._suppress_oblige = saved_sup
+            S_._BLANK_TERMS[:] = saved_blanks
+        if scratch.inst[len(st.inst):]:
+            raise Unsupported("comprehension element with a quantified callee postcondition")
+        return val, conds, scratch.facts[n_f:] + scratch.pc[n_p:]
 
     # ------------------------------------------------------------------ folds: sum / all / any / join
     def fold_call(self, kind, args, st):
